@@ -91,6 +91,10 @@ class Interp:
         self.construction_hook = None
         self.return_hook = None
         self.pending_closures = []
+        self.collect_prov = False
+        self.keep_finals = False
+        self.prov = None  # path -> [prefix, suffix] | "foreign"
+        self.summaries = {}
         self.inv_targets = None
         self.trusted_ctx = frozenset()
         self.rootset = frozenset()
@@ -274,6 +278,25 @@ class Interp:
             if isinstance(to, dict) and to["k"] == "slice" and self.is_u8(to["of"]):
                 if k == "ptr":
                     return VOpaque(t, key)
+                if not t["mut"] and len(key) > 2 and key[0] == "ret":
+                    al = st.notes.get("alias")
+                    if al and key[:2] in al:
+                        parent, sm = al[key[:2]]
+                        flags = sm.get(key[2:])
+                        if flags is not None and flags != "foreign":
+                            o = Lin.atom(reg_atom(("v", ("aoff",) + key), 0, I64MAX))
+                            l = Lin.atom(reg_atom(("v", ("alen",) + key), 0, I64MAX))
+                            if flags[0]:
+                                o = Lin.const(0)
+                            elif len(flags) > 2 and flags[2] is not None:
+                                o = Lin.const(flags[2])
+                                st.add_ge0(parent.len - o)
+                            if flags[1]:
+                                l = parent.len - o
+                                st.add_ge0(l)
+                            else:
+                                st.add_ge0(parent.len - o - l)
+                            return VRegion(parent.origin, parent.off + o, l, False)
                 origin = ("s", key)
                 ln = reg_atom(("len", origin), 0, I64MAX)
                 return VRegion(origin, Lin.const(0), Lin.atom(ln), t["mut"])
@@ -969,6 +992,13 @@ class Interp:
             if ma is not None and (ma & ~c) == 0:
                 return a
             alo, ahi = static_bounds(a)
+            if alo is not None and alo >= 0 and ahi is not None and c > 0:
+                # mask keeping all bits from `lo` upwards (of the possible bits of a):  a & c = 2^lo * (a >> lo)
+                lo_bit = (c & -c).bit_length() - 1
+                full = (1 << ahi.bit_length()) - 1
+                if lo_bit > 0 and (c & full) == (full & ~((1 << lo_bit) - 1)):
+                    q = self.int_binop(None, "Shr", a, Lin.const(lo_bit), ty)
+                    return q.scale(1 << lo_bit)
             if alo is not None and alo >= 0:
                 # low mask = remainder
                 m = (ma & c) if ma is not None else c
@@ -1461,6 +1491,73 @@ class Interp:
         self.sink.events.append(("unknown_term", fr.body["path"], self.cur_site, t.get("d")))
         return []
 
+    def single_slice_param(self, body):
+        """index of the only immutable byte-slice parameter of body (or None)"""
+        r = body.get("_ssp", -1)
+        if r != -1:
+            return r
+        found = []
+        for i in range(body["arg_count"]):
+            t = self.rt(body["locals"][i + 1][0])
+            if isinstance(t, dict) and t["k"] == "ref" and not t["mut"]:
+                to = self.rt(t["to"])
+                if isinstance(to, dict) and to["k"] in ("slice", "array") and self.rt(to["of"]) == "u8":
+                    found.append(i)
+        r = found[0] if len(found) == 1 else None
+        body["_ssp"] = r
+        return r
+
+    def walk_regions(self, v, path=(), depth=0):
+        if depth > 6 or v is None:
+            return
+        if isinstance(v, VRegion):
+            yield path, v
+        elif isinstance(v, VAdt) and v.fields is not None:
+            adt = self.F.adts.get(v.path)
+            isenum = adt is not None and adt["kind"] == "enum"
+            for i, f in enumerate(v.fields):
+                p2 = path + ((("V", v.variant), i) if isenum else (i,))
+                for x in self.walk_regions(f, p2, depth + 1):
+                    yield x
+        elif isinstance(v, VTuple):
+            for i, f in enumerate(v.fields):
+                for x in self.walk_regions(f, path + (i,), depth + 1):
+                    yield x
+
+    def record_provenance(self, st, fr, rv):
+        body = fr.body
+        i = self.single_slice_param(body)
+        if i is None:
+            return
+        if self.prov is None:
+            self.prov = {}
+        origin = ("s", ("arg", body["path"], i))
+        total = Lin.atom(("len", origin))
+        t = self.rt(body["locals"][i + 1][0])
+        to = self.rt(t["to"])
+        if to["k"] == "array" and to["len"] is not None:
+            total = Lin.const(to["len"])
+        for path, r in self.walk_regions(rv):
+            cur = self.prov.get(path)
+            if cur == "foreign":
+                continue
+            if r.origin != origin:
+                if r.origin[0] in ("const", "empty") or r.len.is_const() and r.len.c == 0:
+                    continue
+                self.prov[path] = "foreign"
+                continue
+            pre = st.entails(r.off) and st.entails(-r.off)
+            d = r.off + r.len - total
+            suf = st.entails(d) and st.entails(-d)
+            oc = r.off.c if r.off.is_const() else None
+            if cur is None:
+                self.prov[path] = [pre, suf, oc]
+            else:
+                cur[0] = cur[0] and pre
+                cur[1] = cur[1] and suf
+                if cur[2] != oc:
+                    cur[2] = None
+
     def flush_dirty(self, st, fr, returning=False):
         if not fr.dirty:
             return
@@ -1506,7 +1603,10 @@ class Interp:
         if not st.frames:
             if self.return_hook:
                 self.return_hook(self, st, fr, rv)
-            self.finals.append((st, rv))
+            if self.collect_prov:
+                self.record_provenance(st, fr, rv)
+            if self.keep_finals:
+                self.finals.append((st, rv))
             return []
         if fr.ret_k is None:
             return []
@@ -1932,7 +2032,16 @@ class Interp:
         if dty is None:
             v = VOpaque(None, ("ret", fresh_id()))
         else:
-            v = self.materialize(st, dty, ("ret", fresh_id()))
+            rid = fresh_id()
+            if callee_body is not None and self.summaries:
+                sm = self.summaries.get(callee_body["path"])
+                if sm:
+                    i = self.single_slice_param(callee_body)
+                    if i is not None and i < len(args) and isinstance(args[i], VRegion):
+                        al = dict(st.notes.get("alias", {}))
+                        al[("ret", rid)] = (args[i], sm)
+                        st.notes["alias"] = al
+            v = self.materialize(st, dty, ("ret", rid))
         return ret_k(st, v)
 
     def havoc_through(self, st, a, depth=0):
